@@ -1037,3 +1037,8 @@ N('NM-element-zero-gt', ['C04'], 'index.py', 'Index._loc_to_iloc',
 N('ISD-direction-aware-label-arm', ['C04'], 'index.py', 'LocMap.map_slice_args',
   '                if field == SLICE_STOP_ATTR:\n                    # loc selections are inclusive, so iloc gets one more\n                    pos += 1 #type: ignore\n',
   '                if field == SLICE_STOP_ATTR:\n                    if key.step is not None and key.step < 0:\n                        pos = pos - 1 if pos > 0 else None\n                    else:\n                        pos += 1\n')
+
+# ---------------------------------------------------------------------------------- Quilt key order (C19): two known findings on today's tree; a handled form must be silent
+N('QK-ordered-keys-told-apart', ['C19'], 'quilt.py', 'Quilt._extract',
+  '        sel = np.full(len(self._axis_map), False)\n        sel[sel_key] = True\n',
+  '        if isinstance(sel_key, list) or sel_key.__class__ is np.ndarray:\n            raise NotImplementedError(\'ordered keys are handled by the caller\')\n        sel = np.full(len(self._axis_map), False)\n        sel[sel_key] = True\n')
